@@ -208,8 +208,8 @@ Fixpoint skip_lines (n : nat) (s : stream) : res stream :=
 
 Definition empty_patch (f : format) : patch := mkPatch f OpChange [] [] [] [] [] [] 0 0 [].
 
-(* parse_patch_header: (should_parse_body, patch, stream) *)
-Definition parse_patch_header (p : patch) (strip : Z) (s : stream) : res (bool * patch * stream) :=
+(* parse_patch_header: (should_parse_body, patch, stream, a hunk start was found) *)
+Definition parse_patch_header_full (p : patch) (strip : Z) (s : stream) : res (bool * patch * stream * bool) :=
   let start := rest s in
   do x <- header_loop (S (length (rest s))) strip (mkHS p LKUnknown 0 false true empty_hunk 0) s;
   let '(st, s1) := x in
@@ -223,7 +223,10 @@ Definition parse_patch_header (p : patch) (strip : Z) (s : stream) : res (bool *
                 else p1
             | _ => p1
             end in
-  Ok (h_body st, p2, s3).
+  Ok (h_body st, p2, s3, negb (Nat.eqb (h_first st) 0)).
+
+Definition parse_patch_header (p : patch) (strip : Z) (s : stream) : res (bool * patch * stream) :=
+  do x <- parse_patch_header_full p strip s; Ok (fst x).
 
 (* ---- unified body (parser.cpp parse_unified_patch) ---- *)
 Definition op_of_char (c : N) : option op :=
@@ -538,9 +541,9 @@ Fixpoint parse_all_loop (fuel : nat) (f : format) (strip : Z) (s : stream) (firs
   | S k =>
       if seof s then Ok acc
       else
-        do x <- parse_patch_header (empty_patch f) strip s;
-        let '(should, p, s1) := x in
-        match pfmt p with
+        do x <- parse_patch_header_full (empty_patch f) strip s;
+        let '(should, p, s1, found) := x in
+        match (if negb found && should then FUnknown else pfmt p) with
         | FUnknown => if first then Throw EInvalidArgument else Ok acc
         | _ =>
             match poper p with
